@@ -169,7 +169,7 @@ impl Engine for C01 {
             Phase::new("kind-agnostic expressions of <=2 constructors x 27 contexts", json!({"kind":"agnostic","k":2})),
             Phase::new("kind-agnostic expressions of 3 constructors x 27 contexts", json!({"kind":"agnostic","k":3})),
             Phase::new("annotation matrix: 17 keys x 14 value shapes x 9 positions x 8 targets", json!({"kind":"annotations"})),
-            Phase::new("two modules: function bodies <=2 x arguments <=2 x 6 use sites", json!({"kind":"two","kb":2,"ka":2})),
+            Phase::new("two modules: function bodies <=2 x arguments <=2 x 12 use sites", json!({"kind":"two","kb":2,"ka":2})),
         ];
         for (i, n) in crate::frags::NAMES.iter().enumerate() {
             v.push(Phase::new(&format!("fragment {n}"), json!({"kind":"frag","frag":i,"thorough":false})));
@@ -178,7 +178,7 @@ impl Engine for C01 {
             for i in crate::frags::HAS_NEXT_BOUND {
                 v.push(Phase::new(&format!("fragment {} (next bound)", crate::frags::NAMES[i]), json!({"kind":"frag","frag":i,"thorough":true})));
             }
-            v.push(Phase::new("two modules: function bodies of 3 x arguments <=2 x 6 use sites", json!({"kind":"two","kb":3,"ka":2})));
+            v.push(Phase::new("two modules: function bodies of 3 x arguments <=2 x 12 use sites", json!({"kind":"two","kb":3,"ka":2})));
             v.push(Phase::new("kind-agnostic expressions of 4 constructors x 27 contexts", json!({"kind":"agnostic","k":4})));
         }
         v
@@ -263,7 +263,7 @@ impl Engine for C01 {
         judge(&texts, prog.as_ref())
     }
     fn rule(&self) -> String {
-        "every expression tree with <= k constructors over 13 leaves, 19 unary and 7 binary constructors (all syntax forms) in each of 26 one-hole contexts (response range, domain, res, relation uri, transfer list, let/alias/@ref bodies, property value, array item, object member, operand of & | ~ ::, status/media/headers meta, URI variable, function body, function argument, body of a function / value defined in an imported module, rec body, transfer parameters); the two-module product bodies x arguments x 6 use sites; the full annotation matrix. The compiler decides what is accepted. Non-trivial = accepted or rejected with a compile error; distinct = distinct emitted documents / rejection classes".into()
+        "every expression tree with <= k constructors over 13 leaves, 19 unary and 7 binary constructors (all syntax forms) in each of 26 one-hole contexts (response range, domain, res, relation uri, transfer list, let/alias/@ref bodies, property value, array item, object member, operand of & | ~ ::, status/media/headers meta, URI variable, function body, function argument, body of a function / value defined in an imported module, rec body, transfer parameters); the two-module product bodies x arguments x 12 use sites; the full annotation matrix. The compiler decides what is accepted. Non-trivial = accepted or rejected with a compile error; distinct = distinct emitted documents / rejection classes".into()
     }
     fn assumptions(&self) -> Vec<String> {
         vec![
